@@ -614,6 +614,85 @@ func ruleNodeLayer(c *Ctx) {
 				return true
 			})
 		}
+		// the child is stored in place only where the fill count is known to be below the capacity
+		// (the comparison above may be written either way round; what counts is which branch stores)
+		if au := m.ByName[k.Struct.Obj().Name()+".addChild"]; au != nil && k.Cap < 256 && au.Decl != nil && au.Decl.Recv != nil && len(au.Decl.Recv.List) == 1 && len(au.Decl.Recv.List[0].Names) == 1 {
+			recv := info.Defs[au.Decl.Recv.List[0].Names[0]]
+			g := m.cfgOf(au)
+			guards := guardsOf(info, g)
+			stripC := func(e ast.Expr) ast.Expr {
+				for {
+					e = ast.Unparen(e)
+					if cv, ok := e.(*ast.CallExpr); ok && isConversion(info, cv) && len(cv.Args) == 1 {
+						e = cv.Args[0]
+						continue
+					}
+					return e
+				}
+			}
+			// belowCap: the edge establishes childrenLen < G with G <= Cap
+			belowCap := func(gd guard) bool {
+				be, ok := ast.Unparen(gd.atom.e).(*ast.BinaryExpr)
+				if !ok {
+					return false
+				}
+				op := be.Op
+				x, y := stripC(be.X), stripC(be.Y)
+				if _, isSel := y.(*ast.SelectorExpr); isSel {
+					x, y = y, x
+					op = map[token.Token]token.Token{token.LSS: token.GTR, token.GTR: token.LSS, token.LEQ: token.GEQ, token.GEQ: token.LEQ, token.EQL: token.EQL, token.NEQ: token.NEQ}[op]
+				}
+				sel, isSel := x.(*ast.SelectorExpr)
+				tv, has := info.Types[y]
+				if !isSel || sel.Sel.Name != "childrenLen" || info.ObjectOf(identOf(sel.X)) != recv || !has || tv.Value == nil {
+					return false
+				}
+				cst, _ := constant.Int64Val(tv.Value)
+				if !gd.atom.val {
+					op = map[token.Token]token.Token{token.LSS: token.GEQ, token.GEQ: token.LSS, token.GTR: token.LEQ, token.LEQ: token.GTR, token.EQL: token.NEQ, token.NEQ: token.EQL}[op]
+				}
+				switch op {
+				case token.LSS:
+					return cst <= k.Cap
+				case token.LEQ:
+					return cst+1 <= k.Cap
+				case token.NEQ:
+					return cst == k.Cap // childrenLen != Cap, with childrenLen <= Cap by construction
+				}
+				return false
+			}
+			for _, b := range g.Blocks {
+				if !b.Live {
+					continue
+				}
+				for _, n := range b.Nodes {
+					as, ok := n.(*ast.AssignStmt)
+					if !ok || len(as.Lhs) != 1 || len(as.Rhs) != 1 || as.Tok != token.ASSIGN {
+						continue
+					}
+					ie, ok := ast.Unparen(as.Lhs[0]).(*ast.IndexExpr)
+					if !ok {
+						continue
+					}
+					sel, ok := ast.Unparen(ie.X).(*ast.SelectorExpr)
+					if !ok || sel.Sel.Name != "children" || info.ObjectOf(identOf(sel.X)) != recv || c.isEmptyRefLit(as.Rhs[0]) {
+						continue
+					}
+					key := k.Struct.Obj().Name() + ".addChild stores in place only below the capacity"
+					okStore := false
+					for _, gd := range guards {
+						if belowCap(gd) && edgeDominates(g, gd.b, gd.succ, b) {
+							okStore = true
+						}
+					}
+					if okStore {
+						c.r.ok("R22", key, m.pos(as.Pos()), fmt.Sprintf("dominated by childrenLen < %d", k.Cap), "C11", "C10", "C01")
+					} else {
+						c.r.bad("R22", key, m.pos(as.Pos()), fmt.Sprintf("a child is stored into the %d-slot array on a path that is not dominated by a test that the fill count is below %d: the branch that stores in place and the branch that grows are swapped, or the guard is missing", k.Cap, k.Cap), "C11", "C10", "C01")
+					}
+				}
+			}
+		}
 		if t.grow == -1 && k.Cap < 256 && m.ByName[k.Struct.Obj().Name()+".addChild"] != nil {
 			c.r.undecided("R22", k.Struct.Obj().Name()+".addChild capacity guard equals len(children)", m.pos(m.ByName[k.Struct.Obj().Name()+".addChild"].Decl.Pos()), "no guard of the form childrenLen < C found before a child is stored", "C11", "C10")
 		}
